@@ -430,3 +430,11 @@ _meta_add("C03", functions=["MIR data flow of the clock value into validate_entr
 _meta_add("C10", functions=["net::codec::<impl Decoder for SyncCodec>::decode (assertions as obligations: query c09_frame_decode)"],
           outside="net::handle_connection / connect_and_sync (QUIC streams, tracing spans): seed r4_c10_c is missed there; healthy-actor sessions end to end (threads): sampled natively by witness c10steps")
 _meta_add("C13", functions=["store::fs::migrations::migration_001_populate_latest_table (query c18_heads_rebuild, shared with C18)"])
+_meta_add("C07", functions=["store::fs::Store::import_namespace and its {closure#0} (query c07_import_namespace)"], bounds="import: stored row absent / present / unparsable, merge outcome symbolic, all paths")
+_meta_add("C08", functions=["store::fs::StoreInstance::prefixes_of, store::fs::ParentIterator::{new, next} (query c08_prefixes_of)"])
+_meta_add("C10", functions=["net::handle_connection::{closure#0} and its close-error closures (MIR data flow, query c10_accept_report)"],
+          outside="of net::handle_connection only the data flow into its close errors is decided (QUIC streams are not modelled; natively confirmed over loopback); connect_and_sync; healthy-actor sessions end to end (threads): sampled natively by witness c10steps")
+_meta_add("C11", bounds="plus family c11_crossing_failed_dial (ids, reasons, report placement symbolic) and c11_resync_failed (both ends finish with an error)")
+_meta_add("C13", functions=["heads::AuthorHeads::{insert, insert::{closure#0}, merge, decode}", "store::fs::LatestIterator::{new, next, next::{closure#0}}", "store::fs::Store::has_news_for_us (query c13_heads_api)"],
+          bounds="heads API: author known / unknown, K <= 2 heads of the other set / decoded pairs / head rows",
+          outside="postcard::from_bytes itself, the B-tree map (entry API modelled), the gossip code that sends and compares the heads")
